@@ -134,6 +134,44 @@ def enumerate_obligations(unit, ex, contracts):
     return obs
 
 
+def split_arms(text, fns):
+    """(main_text, [variant texts]) — see run_unit. Arms are the lines `<pattern> => {` directly inside the first
+    `match self {` of each listed function."""
+    lines = text.split("\n")
+    arm_lines = []
+    for q in fns:
+        short = q.split("::")[-1]
+        start = next((i for i, l in enumerate(lines) if re.search(r"\bfn\s+" + re.escape(short) + r"\(&mut self", l) and not l.rstrip().endswith(";")), None)
+        if start is None:
+            raise E.Undecided("lost-anchor", f"split_arms: function {q} not found")
+        mi = next((i for i in range(start, len(lines)) if lines[i].strip() == "match self {"), None)
+        if mi is None:
+            raise E.Undecided("lost-anchor", f"split_arms: no `match self` in {q}")
+        ind = len(lines[mi]) - len(lines[mi].lstrip()) + 4
+        depth = 0
+        for i in range(mi, len(lines)):
+            l = lines[i]
+            if i > mi and depth == 1 and len(l) - len(l.lstrip()) == ind and l.rstrip().endswith("=> {") and not l.lstrip().startswith("//"):
+                arm_lines.append(i)
+            depth += l.count("{") - l.count("}")
+            if i > mi and depth <= 0:
+                break
+    if not arm_lines:
+        raise E.Undecided("lost-anchor", "split_arms: no block arms found")
+    cut = " proof { assume(false); } // case split: this arm is verified in another run"
+    main = list(lines)
+    for i in arm_lines:
+        main[i] = main[i] + cut
+    variants = []
+    for k in arm_lines:
+        v = list(lines)
+        for i in arm_lines:
+            if i != k:
+                v[i] = v[i] + cut
+        variants.append("\n".join(v))
+    return "\n".join(main), variants
+
+
 def run_unit(name, tier="quick", rlimit=None, smt_seed=None):
     """extract, splice, verify one unit; returns a result dict (status ok|undecided)"""
     t0 = time.time()
@@ -180,8 +218,44 @@ def run_unit(name, tier="quick", rlimit=None, smt_seed=None):
         extra = []
         if smt_seed is not None:
             extra += ["--smt-option", f"smt.random_seed={smt_seed}"]
+        split_runs = []
+        if unit.get("split_arms"):
+            # proof by cases over the top-level `match self` arms of very large functions: the main file has every
+            # block-arm of the function cut off (`assume(false)`), variant k re-enables arm k only; together they cover
+            # the function. The instrumentation is ghost-only and mechanical; line numbers are unchanged.
+            main_text, variants = split_arms(text, unit["split_arms"])
+            with open(gen, "w") as f:
+                f.write(main_text)
+            vpaths = []
+            for k, vt in enumerate(variants):
+                vp = os.path.join(E.BUILD, f"{name}_arm{k}.rs")
+                with open(vp, "w") as f:
+                    f.write(vt)
+                vpaths.append(vp)
+            with cf.ThreadPoolExecutor(max_workers=8) as ex2:
+                split_runs = list(ex2.map(lambda vp: E.run_verus(vp, rlimit=rlimit or unit.get("rlimit"),
+                                                                 extra=(extra or []) + ["--verify-root"] + sum([["--verify-function", "*" + q.split("::")[-1] + "*"] for q in unit["split_arms"]], [])), vpaths))
+            res["split_variants"] = len(variants)
         vr = E.run_verus(gen, rlimit=rlimit or unit.get("rlimit"), extra=extra or None)
-        res["verus_cmd"] = vr["cmd"]
+        if split_runs:
+            # merge: diagnostics and per-function verdicts of the variants count for the split functions
+            short = {q.split("::")[-1] for q in unit["split_arms"]}
+            for sr in split_runs:
+                svj = sr["json"]["verification-results"]
+                reported = {fb["function"].split("::")[-1] for fb_mod in sr["json"].get("times-ms", {}).get("smt", {}).get("smt-run-module-times", [])
+                            for fb in fb_mod.get("function-breakdown", [])}
+                if svj.get("encountered-vir-error") or "verified" not in svj or not (short <= reported):
+                    # a case-split run that did not actually verify the function is never counted as success
+                    vr["json"]["verification-results"]["encountered-vir-error"] = True
+                    vr["diags"] += sr["diags"] or [{"level": "error", "message": "case-split run did not report the split function", "rendered": sr["stderr"][-1500:], "spans": []}]
+                    continue
+                for fb_mod in sr["json"].get("times-ms", {}).get("smt", {}).get("smt-run-module-times", []):
+                    for fb in fb_mod.get("function-breakdown", []):
+                        if fb["function"].split("::")[-1] in short:
+                            vr["json"]["times-ms"]["smt"]["smt-run-module-times"][0]["function-breakdown"].append(fb)
+                vr["diags"] += [d for d in sr["diags"] if d.get("level") == "error" and "aborting due to" not in d.get("message", "")]
+                vr["json"]["times-ms"]["smt"]["total"] = vr["json"]["times-ms"]["smt"].get("total", 0) + sr["json"].get("times-ms", {}).get("smt", {}).get("total", 0)
+        res["verus_cmd"] = vr["cmd"] + (f"  (+ {len(split_runs)} case-split runs with --verify-function)" if split_runs else "")
         vj = vr["json"]["verification-results"]
         res["n_verified"] = vj.get("verified", 0)
         res["n_errors"] = vj.get("errors", 0)
@@ -201,7 +275,7 @@ def run_unit(name, tier="quick", rlimit=None, smt_seed=None):
         by_fn_diags = {}
         unmapped = []
         for d in errs:
-            lines = [(sp["line_start"], sp.get("label") or "", sp.get("is_primary")) for sp in d.get("spans", []) if sp["file_name"].endswith(f"{name}.rs")]
+            lines = [(sp["line_start"], sp.get("label") or "", sp.get("is_primary")) for sp in d.get("spans", []) if re.search(r"(^|/)" + re.escape(name) + r"(_arm\d+)?\.rs$", sp["file_name"])]
             hit_fn = None
             clause = None
             is_canary = False
